@@ -82,7 +82,7 @@ func debugDump(a *Analyzer, entry, filter string) {
 		if filter != "" && !strings.Contains(e.Name, filter) {
 			return
 		}
-		fmt.Printf("== %s %s @%s\n   path: %s\n", e.Kind, e.Name, e.Pos(a), e.PathString())
+		fmt.Printf("== %s %s @%s splits=%v\n   path: %s\n", e.Kind, e.Name, e.Pos(a), e.Splits, e.PathString())
 		for i, t := range e.Args {
 			fmt.Printf("   arg%d: %s\n", i, t.Key())
 		}
@@ -94,6 +94,7 @@ func debugDump(a *Analyzer, entry, filter string) {
 			fmt.Printf("     %s\n", k)
 		}
 	})
+	w.AutoSplit = os.Getenv("LH_DUMP_SPLIT") != ""
 	w.Run(fn, nil, nil)
 	fmt.Printf("paths=%d undecided=%v\n", w.Paths, w.Undecided)
 }
